@@ -9,6 +9,7 @@ import (
 	"testing"
 
 	"github.com/wokdav/gopki/generator/config"
+	"github.com/wokdav/gopki/generator/db"
 	"pgregory.net/rapid"
 
 	"verif/harness/core"
@@ -159,6 +160,24 @@ func checkC09(c c09Case) *core.Failure {
 type c09E2E struct {
 	W      World
 	Exotic bool `json:",omitempty"` // some subject uses syntax beyond plain KEY=value pairs (such a config may be refused as a whole)
+	ViaAPI bool `json:",omitempty"` // the profiles are not files: they are handed to the database through AddProfile
+}
+
+// apiProfiles turns the model's profiles into what a caller of the Database API would pass.
+func apiProfiles(ps []core.Profile) []config.CertificateProfile {
+	var out []config.CertificateProfile
+	for _, p := range ps {
+		cp := config.CertificateProfile{Name: p.Name}
+		cp.SubjectAttributes.AllowOther = p.AllowOther != nil && *p.AllowOther
+		if p.HasAttrs {
+			cp.SubjectAttributes.Attributes = []config.ProfileSubjectAttribute{} // present, possibly empty
+			for _, a := range p.Attrs {
+				cp.SubjectAttributes.Attributes = append(cp.SubjectAttributes.Attributes, config.ProfileSubjectAttribute{Attribute: a.Attribute, Optional: a.Optional != nil && *a.Optional})
+			}
+		}
+		out = append(out, cp)
+	}
+	return out
 }
 
 // issuedViolates judges an issued certificate by the attribute types actually in it (decoded by the
@@ -223,10 +242,26 @@ func TestC09(t *testing.T) {
 	e2e := func(c c09E2E) *core.Failure {
 		w := &c.W
 		d := w.Dir()
+		var setup func(db.Database) error
+		if c.ViaAPI {
+			noFiles := World{Ents: w.Ents, Files: w.Files}
+			d = noFiles.Dir()
+			setup = func(dbase db.Database) error {
+				for _, cp := range apiProfiles(w.Profs) {
+					if err := dbase.AddProfile(cp); err != nil {
+						return err
+					}
+				}
+				return nil
+			}
+		}
 		before := d.Clone()
-		res := core.Run(d, core.FlagDefault)
+		res := core.RunWith(d, core.FlagDefault, setup)
 		if res.Panic != "" {
 			return core.Failf("C09/panic", "gopki panicked: %s", res.Panic)
+		}
+		if res.Stage == "setup" {
+			panic("harness: AddProfile refused a profile: " + res.Err)
 		}
 		// verdict per entity
 		anyReject, anyUnspec := false, false
@@ -270,6 +305,9 @@ func TestC09(t *testing.T) {
 			key = fmt.Sprint(w.Texts())
 		}
 		r.Case(key, "e2e:"+cls)
+		if c.ViaAPI {
+			r.Classes["e2e:profiles-through-AddProfile"]++
+		}
 		if c.Exotic && res.Generated > 0 {
 			r.Classes["e2e:exotic-subject-syntax-something-issued"]++
 		}
@@ -303,7 +341,7 @@ func TestC09(t *testing.T) {
 					break
 				}
 			}
-			if missing == "" {
+			if missing == "" || c.ViaAPI {
 				return nil
 			}
 			tight := *p0
@@ -545,6 +583,15 @@ func TestC09(t *testing.T) {
 				e.Issuer = "e0"
 			}
 			c.W.Ents = append(c.W.Ents, e)
+		}
+		if !c.Exotic && rapid.IntRange(0, 3).Draw(t, "via-api") == 0 {
+			c.ViaAPI = true
+			// only the API can express an attribute list that is present but empty
+			for i := range c.W.Profs {
+				if rapid.IntRange(0, 2).Draw(t, fmt.Sprintf("api-empty-list%d", i)) == 0 {
+					c.W.Profs[i].HasAttrs, c.W.Profs[i].Attrs = true, nil
+				}
+			}
 		}
 		return c
 	}
